@@ -409,10 +409,17 @@ def run() -> int:
             rep.add_violation(Violation(PROP, [key] + list(r.get("explained") or []), what, p))
     if not rep.samples:
         rep.add_sample({"note": "no verified non-trivial output in this run"})
+    from .. import history_runs
+
+    history_runs.run(rep, PROP)
     return rep.finish()
 
 
 def replay(payload: dict) -> int:
+    if payload.get("kind") == "history":
+        from .. import history_runs
+
+        return history_runs.replay(PROP, payload)
     g = GSpec.from_json(payload["graph"])
     gamma = c07.ev_from_json(payload["gamma"])
     delta = c07.ev_from_json(payload["delta"])
